@@ -6,6 +6,9 @@ A case carries its operands itself (so a replay file is self-describing).  An op
     {'v': x, 'sub': 'sub'|'enum'}  the same int / float / str injected as an instance of a SUBCLASS of its type (_SubInt,
                                  _SubFloat, _SubStr); 'enum' on an int: as a member of an enum.IntEnum (see var_value)
     {'d': [y, m, d, H, M, S, us]}  a naive datetime injected as a variable
+    {..., 'via': 'cell'|'fn'}    the same host value (any of the three forms above) reaching the comparison by another ROUTE:
+                                 'cell' = answered by the host's callCellValue listener (the formula says A1 for the left,
+                                 B1 for the right operand), 'fn' = returned by a host function (GX() left, GY() right)
     {'e': 'formula text'}        an operand BORN IN THE FORMULA: a number literal or a small computation
                                  (`0.1+0.2`), written in parentheses in the comparison; a plain unsigned literal is worth
                                  the number it spells (digits: that integer; a decimal: the nearest double), any other text
@@ -17,7 +20,8 @@ and a case is {'kind': 'pair', 'a': opnd, 'b': opnd, 'tz': None | POSIX-TZ-strin
 A pair is evaluated with all six operators (and `>` with the operands swapped) and judged by the oracle; when both operands
 are variables it is also compared with the Lean model.  A triple is judged for transitivity by the oracle only.
 Streams of cases(): the fixed WITNESSES, (1) the general pool, (2) clusters of nearly equal numbers / date-times, (2b) cases of
-(1)-(2) with operands re-typed to subclass instances / enum members, (3) the date-related pool and clusters under a process zone.
+(1)-(2) with operands re-typed to subclass instances / enum members, (2c) pairs of (1) and cases of (1)-(2b) with operands
+re-routed through the cell listener / a host function, (3) the date-related pool and clusters under a process zone.
 """
 import contextlib
 import datetime
@@ -77,6 +81,15 @@ RULE = ('Cases are pairs (all six operators < = > <= >= <> on the two operands, 
         'holding an int, float or str (not a logical, blank, date-time or formula-born operand) is with probability 0.6 replaced by '
         'the same value as an instance of a subclass of int / float / str or (ints, 1 in 3) as a member of an IntEnum; the case is '
         'added when at least one operand was replaced.  '
+        '(2c) ROUTES: an operand with key `via` is the same host value not as a variable but answered by the parser\'s '
+        'callCellValue listener (via = cell: the formula says A1 for a left, B1 for a right operand) or returned by a host function '
+        'without arguments (via = fn: GX() left, GY() right); the harness stores the value for the label / name just before the '
+        'evaluation.  For each of the two routes every one of the 1600 ordered pairs of the general pool draws once: 25% the left '
+        'operand re-routed that way, 25% the right one, 10% both (the left that way, the right by a seeded one of the two routes), '
+        '40% no case (about 960 pairs per route); plus a seeded sample of 300*scale (thorough 3000*scale) of the zone-free cases so '
+        'far that have no re-routed operand (re-typed ones of (2b) included), each operand that is not born in the formula re-routed '
+        'with probability 0.5 by a seeded route, added when at least one was (pairs and triples; in a triple the route of an operand '
+        'is used on whichever side of a comparison it stands).  About 2150 such cases in quick, 4300 in thorough.  '
         '(3) PROCESS TIME ZONE: per zone (quick: EST5EDT,M3.2.0,M11.1.0; thorough: also AEST-10AEDT,M10.1.0,M4.1.0/3 and '
         'CET-1CEST,M3.5.0,M10.5.0/3) a date-related pool of 48: 25 dates and date-times (the 5 of 1900, 1969-12-31 21:00, 1970-01-01, '
         '2020-01-15 00:00 and 12:00, 1 Jan and 1 July 2021 12:00, and for both transition days of the zone in 2021 01:30, 02:00, '
@@ -86,16 +99,17 @@ RULE = ('Cases are pairs (all six operators < = > <= >= <> on the two operands, 
         'seeded clusters (4*scale / 40) of 7 under a zone seeded from the three (also in quick): 5 date-times within 00:00..04:59 of '
         'a transition day of a year 1971..2037, one date-time six months away, the number for 01:30 / 03:00 / 04:30 / 07:30 of that '
         'day; and (2*scale / 10) seeded date-time clusters of 10 as in (2) under a seeded zone; all pairs and triples of each.  '
-        'About 37000 cases in quick (100000 at scale 5), 548000 in thorough.  '
-        'MODEL: a pair whose operands are both variables (re-typed ones are sent as the plain value; with or without zone) is also '
-        'answered by the Lean model, the six formulas x<op>y in one request (about 8300 pairs quick, 27600 thorough); all six records '
+        'About 39600 cases in quick (106600 at scale 5), 554700 in thorough.  '
+        'MODEL: a pair whose operands are both variables (re-typed ones are sent as the plain value, re-routed ones as the plain '
+        'variable x / y holding the value; with or without zone) is also '
+        'answered by the Lean model, the six formulas x<op>y in one request (about 10300 pairs quick, 29800 thorough); all six records '
         'must match (same logical, or same error; a model answer "no opinion" decides nothing); pairs for which the statement accepts '
         'more than one answer (below the resolution of a double serial) are not compared.  Pairs with an operand born in the formula '
         'and all triples are judged by the oracle only; triples containing a blank are not judged.  '
         'When a proof or the correspondence broke and no input failed, search() runs the thorough case list on the oracle alone up '
         'to the first failure.  No time or step budget; each (operator, operands, zone) is evaluated once per run and cached.  '
         'Non-trivial = the operand descriptions are pairwise different (as Python dicts: variables 1, 1.0 and TRUE, or 0, 0.0 and '
-        'FALSE, count as the same; a literal or a re-typed operand differs from the plain variable of the same value); identical '
+        'FALSE, count as the same; a literal, a re-typed or a re-routed operand differs from the plain variable of the same value); identical '
         'cases count once.')
 TRUSTED = ['Python comparison of int/float/str/bool values (modelled: exact rationals, code-point lexicographic order); the oracle '
            'itself orders by Fraction(value) and by the list of code points',
@@ -110,7 +124,13 @@ TRUSTED = ['Python comparison of int/float/str/bool values (modelled: exact rati
            'x with float(); neighbouring doubles come from math.nextafter, ulps from math.ulp',
            'variables reach the model as exact values: ints as ints, floats as the rational they hold, text, logicals, blank, '
            'date-times as microseconds since 1900-01-01; an instance of a subclass of int/float/str and an IntEnum member are sent '
-           'as the plain value (the model has no host types), so the model answers for the plain value',
+           'as the plain value (the model has no host types), so the model answers for the plain value; an operand re-routed '
+           'through the cell listener or a host function (2c) is sent as the variable x / y holding the value (the request has '
+           'no cell and no function), so the model answers for the variable',
+           'routes (2c): the one parser has one callCellValue listener, which answers setter(value stored for the label) - '
+           'None, i.e. blank, for a label nothing was stored for -, and the host functions GX / GY, which return the value '
+           'stored under their name; the store (_route) is written by ev() just before the parse and never cleared; the '
+           'listener and the functions are also present, unused, in every evaluation without a route',
            'one Parser instance serves the whole run (variables x, y set with set_variable before each parse) and answers are cached '
            'per (operator, operands, zone): a comparison whose answer depended on earlier evaluations would be seen only through the '
            'harness\'s fresh-interpreter probe of model disagreements']
@@ -135,6 +155,9 @@ ASSUMPTIONS = ['the order is rank first - number (ints, floats, dates and date-t
                'blank (pairs only)',
                'a host value that is an instance of a subclass of int, float or str, or a member of an IntEnum, is that number / '
                'text: it must compare exactly as the plain value does',
+               'the route does not matter: a host value answered by the cell listener or returned by a host function is the '
+               'same operand as that value held by a variable (an empty text stays an empty text, a logical a logical, a blank '
+               'a blank) and is judged by the same oracle with the same expected answers',
                'transitivity is demanded of <, >, =, <= and >= on non-blank values, across ranks and without any tolerance (also '
                'below the resolution of a serial): <= is exactly "< or =" of a total order, so it is transitive whenever the '
                'statement holds; <> is not transitive and is not tested in triples']
